@@ -208,27 +208,34 @@ func (m *Minter) Mint(spec ReqSpec, s time.Time, skew time.Duration, r *core.Rng
 	start := s.Add(-10 * time.Minute)
 	end := s.Add(time.Duration(spec.LifeS) * time.Second)
 	ct := s.Add(-time.Duration(200+m.Serial) * time.Microsecond) // unique per mint, well inside any skew
-	if d := hasDefect(ds, "t-end"); d != nil {                   // presentation at end+skew+Arg
-		end = s.Add(-skew)
+	// ticket times travel in whole seconds: with a configured skew that is not a whole number of
+	// seconds the bound is put on a whole second and the presentation instant carries the fraction
+	skewFloor := skew.Truncate(time.Second)
+	skewCeil := skewFloor
+	if skewCeil != skew {
+		skewCeil += time.Second
+	}
+	if d := hasDefect(ds, "t-end"); d != nil { // presentation at end+skew+Arg
+		end = s.Add(-skewFloor)
 		if !end.After(start) {
 			start = end.Add(-time.Hour)
 			auth = start
 		}
-		tr.TimeDelta = d.Arg
+		tr.TimeDelta = d.Arg + int64(skew-skewFloor)
 	}
 	if d := hasDefect(ds, "t-start"); d != nil { // presentation at start-skew+Arg
-		start = s.Add(skew)
+		start = s.Add(skewCeil)
 		auth = start
 		end = start.Add(time.Hour)
 		spec.StartTime = true
-		tr.TimeDelta = d.Arg
+		tr.TimeDelta = d.Arg + int64(skewCeil-skew)
 	}
 	if d := hasDefect(ds, "t-authtime-future"); d != nil { // no starttime, authtime beyond the skew in the future
 		spec.StartTime = false
-		auth = s.Add(skew)
+		auth = s.Add(skewCeil)
 		start = auth
 		end = auth.Add(time.Hour)
-		tr.TimeDelta = d.Arg
+		tr.TimeDelta = d.Arg + int64(skewCeil-skew)
 	}
 	if d := hasDefect(ds, "t-ctime-old"); d != nil { // presentation at ctime+skew+Arg
 		ct = s.Add(-skew)
@@ -456,7 +463,8 @@ func mutateCipher(c *[]byte, ds []Defect, which string, r *core.Rng) bool {
 
 // ServiceSettings is the model's view of the service configuration.
 type ServiceSettings struct {
-	SkewS       int64  `json:"skew_s"` // 0 = not configured (the documented default of five minutes applies)
+	SkewS       int64  `json:"skew_s"`            // 0 (and SkewMs 0) = not configured (the documented default of five minutes applies)
+	SkewMs      int64  `json:"skew_ms,omitempty"` // added to SkewS: configured skews below and between whole seconds
 	RequireAddr bool   `json:"require_addr,omitempty"`
 	ClientAddr  string `json:"client_addr,omitempty"` // "" | match | other | match6 (the client's IPv6 address)
 	KtPrinc     string `json:"ktprinc,omitempty"`     // "" | principal name used for the key look-up
@@ -464,10 +472,10 @@ type ServiceSettings struct {
 }
 
 func (s ServiceSettings) Skew() time.Duration {
-	if s.SkewS == 0 {
+	if s.SkewS == 0 && s.SkewMs == 0 {
 		return 5 * time.Minute
 	}
-	return time.Duration(s.SkewS) * time.Second
+	return time.Duration(s.SkewS)*time.Second + time.Duration(s.SkewMs)*time.Millisecond
 }
 
 // Verdict of the reference model.
